@@ -31,6 +31,10 @@ for _n in ("clienttxn", "clienttxnLive", "clienttxnA", "clienttxnB", "clienttxnL
 MC_DEPTH["MC_clienttxn"] = (9, 11)
 GEN_DEPTH["GEN_clienttxnA"] = (7, 8)
 GEN_DEPTH["GEN_clienttxnB"] = (6, 7)
+for _n in ("steps",):
+    MODULE_OF["MC_" + _n] = MODULE_OF["GEN_" + _n] = "TurnServerSteps.tla"
+    MC_DEPTH["MC_" + _n] = None
+    GEN_DEPTH["GEN_" + _n] = None
 for _n in ("life", "lifeA", "lifeB"):
     MODULE_OF["MC_" + _n] = MODULE_OF["GEN_" + _n] = "TurnLife.tla"
 MC_DEPTH["MC_life"] = (6, 7)
@@ -48,7 +52,7 @@ MC_DEPTH.update({"MC_auth": (5, 7), "MC_noauth": (3, 4), "MC_nonce": None})
 GEN_DEPTH.update({"GEN_auth": (4, 5), "GEN_noauth": (2, 3), "GEN_nonce": None})
 
 
-NO_SIM = {"GEN_bindreply", "GEN_clienttxnLA", "GEN_clienttxnLB", "GEN_clienttxnLC", "GEN_clienttxnLD", "GEN_clienttxnLE", "GEN_clienttxnB", "GEN_codec", "GEN_nonce", "GEN_noauth", "GEN_mtu", "GEN_mtu1200", "GEN_ltcred", "GEN_relaygenOne", "GEN_relaygenTop"}
+NO_SIM = {"GEN_bindreply", "GEN_steps", "GEN_clienttxnLA", "GEN_clienttxnLB", "GEN_clienttxnLC", "GEN_clienttxnLD", "GEN_clienttxnLE", "GEN_clienttxnB", "GEN_codec", "GEN_nonce", "GEN_noauth", "GEN_mtu", "GEN_mtu1200", "GEN_ltcred", "GEN_relaygenOne", "GEN_relaygenTop"}
 
 
 def depth(table, name, t):
@@ -128,8 +132,8 @@ PROPS = {
                 run=core_run(["MC_time"], ["GEN_time", "GEN_users", "GEN_relayA"]),
                 assumptions=BASE_ASSUME),
     "C07": dict(title="permissions and channels live one full timeout past their last refresh", level="model_checking",
-                run=core_run(["MC_relay", "MC_relayB"], ["GEN_relayA", "GEN_relayB"]),
-                assumptions=BASE_ASSUME),
+                run=core_run(["MC_relay", "MC_relayB", "MC_steps"], ["GEN_relayA", "GEN_relayB", "GEN_steps"]),
+                assumptions=BASE_ASSUME + ["instants at which a timer is due are explored only by the gated schedules of TurnServerSteps.tla (a refresh racing the pending expiry callback: known finding D14)"]),
     "C08": dict(title="channel bindings are a bijection inside 0x4000-0x7FFF", level="model_checking",
                 run=core_run(["MC_relay", "MC_relayB"], ["GEN_relayA", "GEN_relayB", "GEN_relayD"]),
                 assumptions=BASE_ASSUME),
@@ -170,7 +174,7 @@ PROPS = {
                              "'at once' is read as: at once on a loss-free network, and within one transaction (8 s) when transmissions are lost",
                              "'any number of peers' is not explored (4 peers); with several hundred peers the permission refresh exceeds the server's inbound MTU (observation D13 in DESIGN.md)"]),
     "C15": dict(title="server resources and lifecycle events balance through every teardown", level="model_checking",
-                run=core_run(["MC_life", "MC_tcp"], ["GEN_lifeA", "GEN_lifeB", "GEN_tcpB"]),
+                run=core_run(["MC_life", "MC_tcp", "MC_steps"], ["GEN_lifeA", "GEN_lifeB", "GEN_tcpB", "GEN_steps"]),
                 assumptions=BASE_ASSUME + ["after every step the lifecycle callbacks made during the step are compared with the spec's EvDiff (created/deleted events per allocation, permission, channel), "
                                            "the relay sockets handed out by the harness generator with the live allocations (open count, closed at most once)",
                                            "every path ends with Server.Close followed by a two-hour drain: created - deleted must be 0 for every key, AllocationCount 0, every relay socket closed, and no lifecycle event may arrive late (a timer that outlived its allocation); "
@@ -193,6 +197,15 @@ PROPS = {
                 assumptions=["the generators run on the kernel's real loopback sockets (127.0.0.1 / ::1), ports 61100-61113 and 65534-65535, "
                              "which must not be used by another process while the check runs",
                              "the random source is scripted per draw by class (lowest / highest / middle / colliding port), whatever n the code asks for"]),
+    "C18": dict(title="no lock-ups, leaked locks or teardown crashes under concurrency", level="model_checking",
+                run=core_run(["MC_steps", "MC_clienttxn", "MC_clienttxnLive"], ["GEN_steps", "GEN_tcpA", "GEN_lifeB", "GEN_clienttxnLA"]),
+                assumptions=["Engine G: TurnServerSteps.tla models a CreatePermission / ChannelBind handler and the permission, channel and allocation timer callbacks at the granularity of the code's scheduling marks "
+                             "(verifhook.At calls and operator call-outs); TLC enumerates all 1308 interleavings from 28 initial situations and checks NoCrash, NoDeadlock, LocksBalanced, Answered; every interleaving is forced on the real server by parking each goroutine at its marks",
+                             "after every step: lifecycle events so far, permission table; after every interleaving: response, tables, TryLock probes of every manager/allocation lock, one-hour drain; a panic in any goroutine kills the child and is reported with the interleaving; "
+                             "a goroutine stuck on a mutex is reported by the real-time watchdog",
+                             "the request-atomic walks of this check (TCP relay, teardown causes, client transactions) probe the locks after every step as well",
+                             "NOT decided by this family of technique: data races (a TLA+ model has no memory model; the thorough tier runs the same replays under the race detector, which only monitors the schedules replayed) and lock release over all control-flow paths (only the paths the generated behaviours drive)",
+                             "call-outs that take time while the library holds a lock (OnPermissionDeleted, OnChannelDeleted, OnPermissionCreated on the ChannelBind path) cannot take virtual time (synctest does not see mutex waits); they are gated, not slept in"]),
     "C19": dict(title="responses correlated, truthful, idempotent", level="model_checking",
                 run=core_run(["MC_time", "MC_iso"], ["GEN_time", "GEN_users", "GEN_iso", "GEN_v6", "GEN_v6strict"]),
                 assumptions=BASE_ASSUME),
